@@ -836,3 +836,5 @@ META = {
     "xonsh.parsers from the analysed tree in a helper subprocess (static initialisers and grammar templating only).",
     "more": "Also decided: every definition of a string/bytes literal's value in p_string_literal (helpers expanded) is delegated to ast.literal_eval, the host parser or the f-string adaptor - never computed from the token text. The post-parse target check rejects only on the verdict of its one decision function, which never rejects Attribute/Subscript/Starred targets; the value of every literal chunk of a 3.12 f-string comes from the host parser. The context setters (store_ctx / del_ctx / load_ctx, or a worker they share) call themselves on every element of a Tuple or List target and on the value of a Starred target, the three slots in which a target nests a target. Each literal chunk of a 3.12 f-string is unescaped once: the pass ranges over the direct parts of the literal, never a recursive walk into replacement fields.",
 }
+
+META["more"] += " A production whose alternatives are single tokens of different lengths (PERIOD | ELLIPSIS) hands up the token's own text, so that the level of a relative import counts dots, not tokens."
